@@ -8,7 +8,8 @@ from vf import msmcommon as mc
 RULE = ('cases = seeded irreducible row-stochastic matrices (n 3-40; dense '
         'random, ring+edges, reversible, nearly reducible) x disjoint '
         'non-empty source/sink sets of every size up to n/2 x container '
-        '(ndarray, csr, csc, coo, lil) x lag time; non-trivial = case with '
+        '(ndarray in C/Fortran/strided layout, csr, csc, coo, lil) x lag time '
+        '(0.2 .. 10); non-trivial = case with '
         '>=2 sources or >=2 sinks and >=2 intermediate states; distinct by '
         '(matrix hash, sources, sinks)')
 REQUIRED = ['committor_calls', 'mfpt_calls', 'residuals_checked']
@@ -65,7 +66,7 @@ def run_case(ctx, kind, rng, idx):
     T, tkind = mc.irreducible_chain(rng)
     n = len(T)
     src, snk = gen_sets(rng, n)
-    lag = [1.0, 2.5, 10.0][int(rng.integers(0, 3))]
+    lag = [1.0, 2.5, 10.0, 0.5, 0.2, 3][int(rng.integers(0, 6))]
     desc = {'n': n, 'chain': tkind, 'sources': src, 'sinks': snk, 'lag': lag,
             'T': T if n <= 6 else 'elided'}
     ctx.describe(desc)
@@ -84,7 +85,7 @@ def run_case(ctx, kind, rng, idx):
         snk_arg = snk[0]
     inter = [i for i in range(n) if i not in src and i not in snk]
     for cname in CONT:
-        Tin = mc.to_container(T, cname)
+        Tin = mc.to_container(T, cname, rng)
         fz = Frozen(Tin, src_arg, snk_arg)
         try:
             q = np.asarray(core.committors(Tin, src_arg, snk_arg), dtype=float)
@@ -125,7 +126,7 @@ def run_case(ctx, kind, rng, idx):
     # ---- mean first passage times --------------------------------------
     pops = mc.stationary(T) if rng.random() < 0.5 else None
     for cname in CONT:
-        Tin = mc.to_container(T, cname)
+        Tin = mc.to_container(T, cname, rng)
         fz = Frozen(Tin, snk_arg, pops)
         try:
             m = np.asarray(core.mfpts(Tin, sinks=snk_arg, populations=pops,
@@ -167,7 +168,7 @@ def run_case(ctx, kind, rng, idx):
     # ---- all-pairs table ---------------------------------------------------
     if n <= 20 and idx % 2 == 0:
         cname = CONT[int(rng.integers(0, len(CONT)))]
-        Tin = mc.to_container(T, cname)
+        Tin = mc.to_container(T, cname, rng)
         fz = Frozen(Tin, pops)
         try:
             A = np.asarray(core.mfpts(Tin, populations=pops, lagtime=lag),
